@@ -110,6 +110,7 @@ class Env:
         self.comp = comp or (lambda k, inner: "⟨" + k + "⟩" + inner + "⟨/" + k + "⟩")
         self.count = count or (lambda k: 0)
         self.cat = cat or (lambda rule, c: "other")
+        self.side_text = "SIDE"
 
 
 def pv_eval(env, v):
